@@ -67,12 +67,14 @@ DRIVES = {
     "blackman": [{"amp": ["blackman", 100, 2.5], "det": ["const", 100, -1.0], "phase": 0.0}],
     # identical amplitude and detuning in consecutive steps, only the phase changes
     "phasejump": [{"amp": ["const", 50, 5.0], "det": ["const", 50, 1.5], "phase": 0.0}, {"amp": ["const", 50, 5.0], "det": ["const", 50, 1.5], "phase": 1.3}],
+    # phase exactly 0, then exactly pi (sin(phi) = 0 in every step, cos(phi) changes sign)
+    "echo": [{"amp": ["const", 50, 5.0], "det": ["const", 50, 1.5], "phase": 0.0}, {"amp": ["const", 50, 5.0], "det": ["const", 50, 1.5], "phase": float(np.pi)}],
 }
 
 
 def _alph(tier):
     if tier == "quick":
-        return dict(shape=["one", "pair"], drive=["const", "phase", "phasejump"], dt=[10], tol=[1e-10], init=[None, "mixed", "mixed_offtrace"])
+        return dict(shape=["one", "pair"], drive=["const", "phase", "phasejump", "echo"], dt=[10], tol=[1e-10], init=[None, "mixed", "mixed_offtrace"])
     return dict(shape=["one", "pair", "bent3"], drive=list(DRIVES), dt=[10, 3], tol=[1e-10, 1e-6], init=[None, "product", "mixed", "mixed_offtrace", "mixed_x2"])
 
 
